@@ -102,7 +102,7 @@ def run_property(pid, spec, tier, prog_loader):
     n_ok = 0
     constructs = set()
     for r in results:
-        if len(r.instances) < r.floor:
+        if len(r.instances) < r.floor and all(i.ok for i in r.instances):
             floor_fail.append("%s: %d instance(s) examined, floor is %d — an anchor moved or was renamed; the rule would pass vacuously" % (r.rule, len(r.instances), r.floor))
         for i in r.instances:
             n_inst += 1
